@@ -88,9 +88,9 @@ JudgeConvert(e) ==
     ELSE IF ModeAmbiguous(c) THEN
         IF RefusalOptional(c) /\ e.g # -1 THEN
             (* answering a geometry target from the beamline graph is the only alternative *)
-            IF ~Known(e.g) \/ tab[e.g] # Rules("beamline") THEN "reported_graph_differs"
-            ELSE First(JudgeWalk(c, Rules("beamline"), e.da, pv, "_DataArray"),
-                       JudgeWalk(c, Rules("beamline"), e.ds, pv, "_Dataset"))
+            IF ~Known(e.g) \/ tab[e.g] # Rules(AltTag(c)) THEN "reported_graph_differs"
+            ELSE First(JudgeWalk(c, Rules(AltTag(c)), e.da, pv, "_DataArray"),
+                       JudgeWalk(c, Rules(AltTag(c)), e.ds, pv, "_Dataset"))
         ELSE JudgeRefusal(e)
     ELSE
         LET rules == Rules(ReportedTag(c)) IN
